@@ -295,6 +295,9 @@ func (x *Exec) pkgIdent(env *Env, pkgName, name string) (Val, bool) {
 func (x *Exec) evalField(env *Env, base Val, name string) (Val, error) {
 	switch b := base.(type) {
 	case *Term:
+		if isPtrSort(b.Sort) && name != "isnil" && name != "val" {
+			b = SelField(b, 1) // optional-pointer field: p.F is the field of the pointee
+		}
 		if b.Sort.Kind == KData {
 			i := b.Sort.FieldIndex(name)
 			if i < 0 {
